@@ -233,7 +233,12 @@ def describe(items):
         elif op == OP.BRANCH:
             out.append("|".join(describe(a) for a in av[1]))
         elif op in REPEATS:
-            out.append("{%s}%s%s" % (describe(av[2]), "*" if av[0] == 0 else "+" if av[0] == 1 else "{%d,}" % av[0], "?" if op == OP.MIN_REPEAT else ""))
+            body = describe(av[2])
+            if len(list(av[2])) != 1 or list(av[2])[0][0] not in CHAR_OPS:
+                body = "(?:%s)" % body
+            lo, hi = av[0], av[1]
+            q = "?" if (lo, hi) == (0, 1) else "*" if (lo, hi) == (0, MAXREPEAT) else "+" if (lo, hi) == (1, MAXREPEAT) else "{%d,%s}" % (lo, "" if hi == MAXREPEAT else hi)
+            out.append("%s%s%s" % (body, q, "?" if op == OP.MIN_REPEAT else ""))
         elif op == OP.ANY:
             out.append(".")
         elif op == OP.IN:
@@ -517,3 +522,251 @@ def eda(pattern, flags=0, alpha_extra=""):
                 res.update(found=True, loop=desc, pump=w + "".join(reversed(w2)))
                 return res
     return res
+
+
+# ----------------------------------------------------------------------
+# prefix-match automata with EOF and single-character negative look-ahead:
+# "does pattern P match a prefix of s" decided for all s, coverage between
+# matchers of a cascade
+# ----------------------------------------------------------------------
+
+class Unsupported(AnalysisError):
+    pass
+
+
+EOF = "\x00EOF"
+
+
+class PNFA:
+    """NFA for `pattern` used in match-at-position mode.  Leading
+    look-behinds become a context tag; trailing look-aheads are consumed;
+    (?!c) becomes a guard on the next symbol; \\Z consumes the EOF symbol."""
+
+    def __init__(self, pattern, flags=0, sub=None):
+        self.pattern = pattern
+        self.sub = sub if sub is not None else parse(pattern, flags)
+        self.flags = self.sub.state.flags if hasattr(self.sub, "state") else flags
+        self.eps = {}
+        self.chr = {}
+        self.guard = {}  # state -> [(atom, state)]  negative single-char look-ahead
+        self.n = 0
+        self.context = None  # None | 'linestart' | 'after-nl'
+        items = list(self.sub)
+        items = self._strip_context(items)
+        self.start = self.new()
+        self.final = self._seq(items, self.start, top=True)
+
+    def new(self):
+        self.n += 1
+        self.eps[self.n] = []
+        self.chr[self.n] = []
+        self.guard[self.n] = []
+        return self.n
+
+    def _strip_context(self, items):
+        while items:
+            op, av = items[0]
+            if op == OP.AT and av in (OP.AT_BEGINNING, OP.AT_BEGINNING_STRING):
+                self.context = "linestart" if (self.flags & re.MULTILINE and av == OP.AT_BEGINNING) else "stringstart"
+                items = items[1:]
+                continue
+            if op == OP.ASSERT and av[0] < 0:
+                body = list(av[1])
+                if len(body) == 1 and body[0][0] == OP.AT and body[0][1] in (OP.AT_BEGINNING, OP.AT_BEGINNING_STRING):
+                    self.context = "linestart" if self.flags & re.MULTILINE else "stringstart"
+                elif len(body) == 1 and body[0] == (OP.LITERAL, 10):
+                    self.context = "after-nl"
+                else:
+                    raise Unsupported("look-behind %s not modelled" % describe([items[0]]))
+                items = items[1:]
+                continue
+            break
+        return items
+
+    def _seq(self, items, cur, top=False):
+        items = list(items)
+        for idx, item in enumerate(items):
+            op, av = item
+            last = idx == len(items) - 1
+            if op in CHAR_OPS:
+                nxt = self.new()
+                self.chr[cur].append((item, nxt))
+                cur = nxt
+            elif op == OP.AT:
+                if av == OP.AT_END_STRING or (av == OP.AT_END and not (self.flags & re.MULTILINE)):
+                    nxt = self.new()
+                    self.chr[cur].append((("EOF",), nxt))
+                    cur = nxt
+                elif av == OP.AT_END:
+                    # $ in MULTILINE: before a newline or at the end
+                    nxt = self.new()
+                    self.chr[cur].append((("EOF",), nxt))
+                    n2 = self.new()
+                    self.chr[cur].append(((OP.LITERAL, 10), n2))
+                    self.eps[n2].append(nxt)
+                    cur = nxt
+                else:
+                    raise Unsupported("anchor %s inside a pattern" % av)
+            elif op == OP.ASSERT and av[0] > 0:
+                # look-ahead: consumed (prefix-language view); must be trailing in its sequence
+                if not all(o in (OP.ASSERT,) for o, _ in items[idx + 1:]):
+                    if not last:
+                        raise Unsupported("look-ahead in the middle of a pattern: %s" % describe([item]))
+                cur = self._seq(av[1], cur)
+            elif op == OP.ASSERT_NOT and av[0] > 0:
+                body = list(av[1])
+                if len(body) == 1 and body[0][0] in CHAR_OPS:
+                    nxt = self.new()
+                    self.guard[cur].append((body[0], nxt))
+                    cur = nxt
+                else:
+                    raise Unsupported("negative look-ahead %s not modelled" % describe([item]))
+            elif op == OP.SUBPATTERN:
+                cur = self._seq(av[3], cur)
+            elif op == OP.BRANCH:
+                end = self.new()
+                for alt in av[1]:
+                    s = self.new()
+                    self.eps[cur].append(s)
+                    e = self._seq(alt, s)
+                    self.eps[e].append(end)
+                cur = end
+            elif op in REPEATS:
+                lo, hi, body = av
+                for _ in range(lo):
+                    cur = self._seq(body, cur)
+                if hi == MAXREPEAT:
+                    entry = self.new()
+                    self.eps[cur].append(entry)
+                    s = self.new()
+                    self.eps[entry].append(s)
+                    e = self._seq(body, s)
+                    self.eps[e].append(entry)
+                    cur = entry
+                else:
+                    if hi - lo > 8:
+                        raise Unsupported("large bounded repeat")
+                    for _ in range(hi - lo):
+                        s = self.new()
+                        self.eps[cur].append(s)
+                        e = self._seq(body, s)
+                        out = self.new()
+                        self.eps[e].append(out)
+                        self.eps[cur].append(out)
+                        cur = out
+            else:
+                raise Unsupported("regex op %s not modelled (prefix automaton)" % (op,))
+        return cur
+
+    # -- simulation ---------------------------------------------------------
+    def closure(self, items, alpha):
+        """items: set of (state, guard frozenset|None)"""
+        seen = set(items)
+        todo = list(items)
+        while todo:
+            q, g = todo.pop()
+            for r in self.eps[q]:
+                it = (r, g)
+                if it not in seen:
+                    seen.add(it)
+                    todo.append(it)
+            for atom, r in self.guard[q]:
+                bad = frozenset(c for c in alpha if atom_matches(atom, c, self.flags))
+                it = (r, (g or frozenset()) | bad)
+                if it not in seen:
+                    seen.add(it)
+                    todo.append(it)
+        return frozenset(seen)
+
+    def init(self, alpha):
+        return self.closure({(self.start, None)}, alpha)
+
+    def accepts_before(self, state, sym):
+        """is a complete match present whose pending guards allow `sym` next"""
+        for q, g in state:
+            if q == self.final and (g is None or sym == EOF or sym not in g):
+                return True
+        return False
+
+    def step(self, state, sym, alpha):
+        out = set()
+        for q, g in state:
+            if g is not None and sym != EOF and sym in g:
+                continue
+            for atom, r in self.chr[q]:
+                if atom == ("EOF",):
+                    if sym == EOF:
+                        out.add((r, None))
+                elif sym != EOF and atom_matches(atom, sym, self.flags):
+                    out.add((r, None))
+        return self.closure(out, alpha)
+
+
+def _ctx_implies(left, right):
+    if right is None:
+        return True
+    if right == "linestart":
+        return left in ("linestart", "after-nl", "stringstart")
+    return left == right
+
+
+def prefix_total(pnfa, alpha, maxlen=12):
+    """(True, None) if for every string s, pnfa matches some prefix of s (EOF
+    aware); else (False, witness string)."""
+    start = pnfa.init(alpha)
+    seen = {start: ""}
+    todo = [start]
+    while todo:
+        st = todo.pop(0)
+        w = seen[st]
+        for sym in list(alpha) + [EOF]:
+            if pnfa.accepts_before(st, sym):
+                continue  # matched a prefix
+            nxt = pnfa.step(st, sym, alpha)
+            if sym == EOF:
+                if not any(q == pnfa.final for q, g in nxt):
+                    return False, w + "<EOF>"
+                continue
+            if not nxt:
+                return False, w + sym
+            if nxt not in seen:
+                seen[nxt] = w + sym
+                todo.append(nxt)
+    return True, None
+
+
+def covered(left, rights, alpha):
+    """every string with a prefix matched by `left` (a PNFA for the look-ahead
+    condition) has a non-empty... prefix matched by one of `rights` usable in
+    left's context.  Returns (True, None, used) or (False, witness, used)."""
+    rs = [r for r in rights if _ctx_implies(left.context, r.context)]
+    start = (left.init(alpha), False, tuple(r.init(alpha) for r in rs))
+    seen = {start: ""}
+    todo = [start]
+    while todo:
+        cur = todo.pop(0)
+        ls, lm, rss = cur
+        w = seen[cur]
+        for sym in list(alpha) + [EOF]:
+            lm2 = lm or left.accepts_before(ls, sym)
+            if any(r.accepts_before(s, sym) for r, s in zip(rs, rss)):
+                continue  # some earlier matcher matches a prefix: covered
+            ls2 = left.step(ls, sym, alpha) if not lm2 else ls
+            rss2 = tuple(r.step(s, sym, alpha) for r, s in zip(rs, rss))
+            if sym == EOF:
+                lm3 = lm2 or any(q == left.final for q, g in ls2)
+                rm = any(any(q == r.final for q, g in s) for r, s in zip(rs, rss2))
+                if lm3 and not rm:
+                    return False, w + "<EOF>", rs
+                continue
+            if not lm2 and not ls2:
+                continue  # not in left's language
+            if lm2 and not any(rss2):
+                return False, w + sym, rs
+            nxt = (ls2, lm2, rss2)
+            if nxt not in seen:
+                seen[nxt] = w + sym
+                todo.append(nxt)
+            if len(seen) > 200000:
+                raise AnalysisError("coverage product too large")
+    return True, None, rs
